@@ -16,6 +16,27 @@ MODULES = ["utils", "interfaces", "simevent", "eventlist", "pubsub", "streams",
            "simulator", "experiment"]
 
 
+_LINES = {}
+
+
+def _segment(text, node):
+    """ast.get_source_segment(text, node) with the line split cached per module text (same result)."""
+    key = id(text)
+    if key not in _LINES or _LINES[key][0] is not text:
+        _LINES[key] = (text, ast._splitlines_no_ff(text))
+    lines = _LINES[key][1]
+    try:
+        lineno, end_lineno = node.lineno - 1, node.end_lineno - 1
+        col, end_col = node.col_offset, node.end_col_offset
+    except AttributeError:
+        return ""
+    if end_lineno == lineno:
+        return lines[lineno].encode()[col:end_col].decode()
+    first = lines[lineno].encode()[col:].decode()
+    last = lines[end_lineno].encode()[:end_col].decode()
+    return "".join([first] + lines[lineno + 1:end_lineno] + [last])
+
+
 class Function:
     def __init__(self, module, cls, node, text):
         self.module = module
@@ -25,7 +46,7 @@ class Function:
         self.qual = (cls + "." if cls else "") + node.name
         if any(ast.unparse(d).endswith(".setter") for d in node.decorator_list):
             self.qual += "@setter"
-        seg = ast.get_source_segment(text, node) or ""
+        seg = _segment(text, node)
         self.segment = seg
         self.sha256 = hashlib.sha256(seg.encode()).hexdigest()
         self.decorators = [ast.unparse(d) for d in node.decorator_list]
